@@ -106,7 +106,7 @@ def call_api(ssj, case, ltable, rtable, tokenizer):
     thr = threshold_value(case)
     kw = dict(l_out_attrs=case.get('lout'), r_out_attrs=case.get('rout'),
               l_out_prefix=case.get('lpre', 'l_'), r_out_prefix=case.get('rpre', 'r_'),
-              n_jobs=case.get('n_jobs', 1), show_progress=False)
+              n_jobs=case.get('n_jobs', 1), show_progress=bool(case.get('progress', 0)))
     keys = (case.get('lkey', 'id'), case.get('rkey', 'id'), case.get('lattr', 's'), case.get('rattr', 's'))
     if case['kind'] == 'join':
         api = case['api']
@@ -147,12 +147,17 @@ def execute(case):
     if vh:
         vh.drain()
     raised, result = '', None
+    import contextlib
+    import io
+    quiet = contextlib.redirect_stdout(io.StringIO()) if case.get('progress') else contextlib.nullcontext()
+    quiet_err = contextlib.redirect_stderr(io.StringIO()) if case.get('progress') else contextlib.nullcontext()
     try:
-        if case.get('n_jobs', 1) != 1 and case.get('backend', 'threading') == 'threading':
-            with joblib.parallel_config(backend='threading'):
+        with quiet, quiet_err:
+            if case.get('n_jobs', 1) != 1 and case.get('backend', 'threading') == 'threading':
+                with joblib.parallel_config(backend='threading'):
+                    result = call_api(ssj, case, ltable, rtable, tokenizer)
+            else:
                 result = call_api(ssj, case, ltable, rtable, tokenizer)
-        else:
-            result = call_api(ssj, case, ltable, rtable, tokenizer)
     except Exception as exc:                         # observed, judged by TLC
         raised = type(exc).__name__
         case['_exc'] = '%s: %s' % (type(exc).__name__, str(exc)[:300])
